@@ -28,6 +28,7 @@ type Script struct {
 	Exit       int        `json:"exit"`                // exit code when the life time ends
 	Out        []OutChunk `json:"out,omitempty"`
 	OutputText string     `json:"output_text,omitempty"` // stdout for Output() callers (env_cmds)
+	ErrText    string     `json:"err_text,omitempty"`    // what such a command writes to stderr (CombinedOutput() callers get it too)
 	TermLagMs  int        `json:"term_lag_ms"`           // time between a fatal signal and death
 	Ignore     []int      `json:"ignore,omitempty"`      // signals this process ignores (never SIGKILL)
 	ExitOnSig  int        `json:"exit_on_sig"`           // 0: dies "signalled" (exit code -1); else exits with this code on a fatal signal
